@@ -212,7 +212,8 @@ def run(ctx):
         ctx.report_counterexample("tally/initialize", "astsym-z3", "c09", "r_tally", [[1.0, 2.0], None], {}, {})
 
     # ------------------------------------------------------------------ rejected observations
-    for label, bad in (("nan", math.nan), ("str", "abc"), ("none", None)):
+    import decimal
+    for label, bad in (("nan", math.nan), ("str", "abc"), ("none", None), ("decimal", decimal.Decimal("1.5"))):
         p = A.Path()
         obj = A.new_obj(p, Tally, inv_fields(n, ps, lo, hi))
         p.pc.append(n >= 1)
@@ -233,9 +234,12 @@ def run(ctx):
     biased = z3.Bool("biased")
     alpha = z3.Real("alpha")
     nr, mu, c2, c3, c4 = central(n, ps)
+    G0 = (n, ps, lo, hi)
 
-    def spec(getter, q, arg):
+    def spec(getter, q, arg, G=None):
         """returns (nan_condition, predicate(value) -> z3 bool) from the documented definitions"""
+        n, ps, lo, hi = G if G is not None else G0
+        nr, mu, c2, c3, c4 = central(n, ps)
         if getter == "n":
             return z3.BoolVal(False), lambda v: v == n
         if getter == "sum":
@@ -312,9 +316,19 @@ def run(ctx):
             p2 = A.Path()
             o2 = A.new_obj(p2, Tally, inv_fields(nk, psk, lok, hik))
             p2.pc.append(z3.And(*[z3.And(d >= -4, d <= 4) for d in ds]))
-            nrk, muk, c2k, c3k, c4k = central(nk, psk)
+            Gk = (nk, psk, lok, hik)
             for qq in A.summarize(eng, f_g, [] if arg is None else [arg], self_obj=o2, defining_cls=c_g, path=p2):
-                r2, m2 = A.prove(eng, qq, False)
+                # ask for a data set on which THIS path violates the getter lemma
+                if qq.outcome[0] != "return":
+                    claim = False
+                else:
+                    nan_k, pred_k = spec(g, qq, arg, Gk)
+                    vv = qq.outcome[1]
+                    if not A.is_sym(vv) and isinstance(vv, float) and vv != vv:
+                        claim = nan_k
+                    else:
+                        claim = z3.And(z3.Not(nan_k), pred_k(A.to_real(vv)))
+                r2, m2 = A.prove(eng, qq, claim)
                 if r2 != "sat":
                     continue
                 data = [model_num(m2, d) for d in ds]
